@@ -108,7 +108,11 @@ def routes(ctx, r, spec):
                                               **kw()))
         add('stored-zeros-csc', lambda: Table(with_zeros(D, 'csc', r), o, s,
                                               **kw()))
-    add('unsorted-csr', lambda: Table(unsorted_csr(D), o, s, **kw()))
+    add('unsorted-csr-input', lambda: Table(unsorted_csr(D), o, s, **kw()))
+    # ... and a table whose own matrix was left unsorted through the public
+    # matrix_data handle (the constructor may order its copy)
+    add('unsorted-csr', lambda: gen.apply_layout(ctx.biom, spec,
+                                                 'csr-unsorted', r))
     for lay in ('csr-duplicate-entries', 'csc-duplicate-entries'):
         add(lay, lambda lay=lay: gen.apply_layout(ctx.biom, spec, lay, r))
 
